@@ -343,6 +343,7 @@ def run_check(prop_id, tier, root_seed, budget_s=None, n_runs=None):
     herrs = [o for o in outs if o["status"] == "harness_error"]
     exit_code = 0
     reported = []
+    slow = []
     known_hits = {}
     by_sig = {}
     for o in violations:
@@ -360,6 +361,15 @@ def run_check(prop_id, tier, root_seed, budget_s=None, n_runs=None):
             g for g in group if match_finding(findings, prop_id, oracle, g.get("message")) is None
         )
         R = cand["R"]
+        if oracle == "hang":
+            # a watchdog expiry is only a violation if the run still does not finish with four times the time
+            # (slow-but-terminating runs are counted as 'slow_runs', not as violations)
+            big = 4 * getattr(module, "WATCHDOG", 60.0)
+            again = run_one(module, R, watchdog=big)
+            if not (again["status"] == "violation" and again["oracle"] == "hang"):
+                slow.append({"index": cand["index"], "seed": cand["seed"], "finished_with_watchdog_s": big, "status": again["status"]})
+                if again["status"] == "ok":
+                    continue
         Rmin, spent = shrink(module, R, oracle)
         out = run_one(module, Rmin, keep_trace=True, watchdog=getattr(module, "WATCHDOG", 60.0))
         if not (out["status"] == "violation" and out["oracle"] == oracle):
@@ -407,6 +417,7 @@ def run_check(prop_id, tier, root_seed, budget_s=None, n_runs=None):
             print(h["traceback"])
 
     ev = build_evidence(module, tier, root_seed, outs, wall, reported, known_hits, herrs, missing)
+    ev["coverage"]["slow_runs_not_hangs"] = slow
     os.makedirs(os.path.join(VERIF_DIR, "evidence"), exist_ok=True)
     with open(os.path.join(VERIF_DIR, "evidence", f"{prop_id}.json"), "w", encoding="utf8") as f:
         json.dump(ev, f, indent=1, sort_keys=True, default=str)
